@@ -686,7 +686,7 @@ func (r *RegionExpr) Eval(entry string, draws map[string]uint64) (bool, bool) {
 // state (package initialisers run once per worker); on any difficulty it falls back
 // to lazy per-path initialisation.
 func (ex *Exec) installInitSnapshot(entry *ssa.Function) {
-	if ex.snapOff || entry.Pkg == nil {
+	if ex.snapOff || entry.Pkg == nil || os.Getenv("GOSYM_NOSNAP") != "" {
 		return
 	}
 	if ex.master == nil {
